@@ -319,6 +319,7 @@ def verify_function(lib, cls, fname, fnode, con, timeout_ms=10000, want_models=T
     res.lineno = fnode.lineno
     profile = lib.profile(cls)
     try:
+        V.GENERIC_ITEMS[0] = False          # (a library switches it on for classes whose items are arbitrary objects)
         st0 = lib.initial_state(cls, fname, con)
         args = lib.bind_params(cls, fname, fnode, con, st0)
         # assumptions at entry
@@ -385,6 +386,12 @@ def verify_function(lib, cls, fname, fnode, con, timeout_ms=10000, want_models=T
         res.solver_checks = ctx.solver_checks
     except Unsupported as e:
         res.unsupported = str(e)
+        res.seconds = time.time() - t0
+        return res
+    if os.environ.get("PYVC_LIST_ONLY"):
+        # audit mode: which obligations (and property tags) does this unit generate?  nothing is decided
+        res.obligations = [{"name": ob.name, "kind": ob.kind, "status": "listed", "props": list(ob.props), "seconds": 0.0,
+                            "lineno": ob.lineno} for ob in obligs]
         res.seconds = time.time() - t0
         return res
     # decide obligations: all goals of one path state are first tried as one conjunction
